@@ -40,6 +40,9 @@ def instances(tier, seed):
     for w in ("Prefixed(Byte, Struct('h'/Byte, 'r'/RawCopy(Int16ub), 't'/GreedyBytes))", "FixedSized(5, Struct('h'/Byte, 'r'/RawCopy(VarInt), 't'/GreedyBytes))",
               "Struct('p'/Bytes(2), 'q'/Prefixed(Byte, Prefixed(Byte, Struct('r'/RawCopy(Byte), 'g'/GreedyBytes))))"):
         out.append(dict(name="rawcopy in substream %s" % w[:40], params=dict(kind="rc-sub", source=w, n=8)))
+        out.append(dict(name="rawcopy in substream, compiled %s" % w[:40], params=dict(kind="rc-sub", source=w, n=8, compiled=True)))
+    for k in sorted(INNER):
+        out.append(dict(name="rawcopy built twice from one Container %s" % k, params=dict(kind="rc-twice", inner=k, n=n)))
     for k in sorted(INNER):
         out.append(dict(name="rawcopy rebuild from an edited parse result %s" % k, params=dict(kind="rc-edit", inner=k, n=n)))
     sizes = [4] if tier == "quick" else [1, 4, 8, 20]
@@ -66,6 +69,8 @@ def harness(ctx, C, p):
         return _rc_sub(ctx, C, p)
     if k == "rc-edit":
         return _rc_edit(ctx, C, p)
+    if k == "rc-twice":
+        return _rc_twice(ctx, C, p)
     return _ck(ctx, C, p)
 
 
@@ -148,8 +153,30 @@ def _rc_edit(ctx, C, p):
     return "ok"
 
 
+def _rc_twice(ctx, C, p):
+    """the caller's object is a template: building from it does not write into it, so editing it and building again emits the edit"""
+    inner = INNER[p["inner"]]
+    d = mk(C, "Struct('pre'/Byte, 'r'/RawCopy(%s), 'post'/Byte)" % inner)
+    s1, s2 = ctx.bytes("first", p["n"]), ctx.bytes("second", p["n"])
+    r1, r2 = api.outcome(mk(C, inner).parse, s1), api.outcome(mk(C, inner).parse, s2)
+    if not (r1.ok and r2.ok):
+        return "no-sample"
+    c1, c2 = mk(C, inner).build(r1.value), mk(C, inner).build(r2.value)
+    tmpl = C.Container(pre=1, r=C.Container(value=r1.value), post=2)
+    keys_before = sorted(dict.keys(tmpl["r"]))
+    b1 = api.outcome(d.build, tmpl)
+    ctx.check("first build from the template", b1.ok and ctx.fork(ctx.eq(b1.value, mkbytes([1]) + c1 + mkbytes([2]))))
+    ctx.check("building does not add entries to the caller's RawCopy container", sorted(dict.keys(tmpl["r"])) == keys_before)
+    tmpl["r"]["value"] = r2.value
+    b2 = api.outcome(d.build, tmpl)
+    ctx.check("second build from the edited template emits the new value", b2.ok and ctx.fork(ctx.eq(b2.value, mkbytes([1]) + c2 + mkbytes([2]))))
+    return "ok"
+
+
 def _rc_sub(ctx, C, p):
     d = mk(C, p["source"])
+    if p.get("compiled"):
+        d = d.compile()
     data = ctx.bytes("data", p["n"])
     r = api.outcome(d.parse, data)
     if not r.ok:
